@@ -1,6 +1,7 @@
 """C11/C12 native harness (bounded): real runs over a generated project under privacy rule lists; the written files are
 scanned for dangling links (C11) and for traces of hidden objects / unmarked private ones (C12)."""
 from __future__ import annotations
+import os
 import re
 import urllib.parse
 from replay import site
@@ -40,7 +41,11 @@ def _cases(tier, seed):
     for k in ((1, 3, 4) if tier == 'quick' else range(5)):
         yield {'privacy': 0, 'project': 'kitchen', 'options': k}
     yield {'privacy': 0, 'project': 'two_roots', 'rules': ['PRIVATE:gamma._inner.helper', 'PRIVATE:beta.B.m', 'PUBLIC:gamma._inner']}
-    yield {'privacy': 0, 'project': 'two_roots', 'rules': ['HIDDEN:gamma.widgets.Sealed', 'PRIVATE:gamma.widgets.P*', 'HIDDEN:gamma._inner']}
+    yield {'privacy': 0, 'project': 'two_roots', 'rules': ['HIDDEN:gamma.widgets.Sealed', 'PRIVATE:gamma.widgets.P*', 'HIDDEN:gamma._inner', 'HIDDEN:gamma.widgets.HidSub']}
+    # all roots but one are hidden
+    yield {'privacy': 0, 'project': 'two_roots', 'rules': ['HIDDEN:beta', 'HIDDEN:gamma']}
+    # a package with more than 50 modules (the module index switches to its compact form), some made private / public by rules
+    yield {'privacy': 0, 'project': 'many', 'rules': ['PRIVATE:mm.m0*', 'PUBLIC:mm._p1', 'HIDDEN:mm.m51']}
     yield {'privacy': 0, 'project': 'B', 'extra': ['--sidebar-expand-depth', '3']}
     # only some objects are written (--html-subject), one of them sits inside a hidden module
     yield {'privacy': 0, 'project': 'B', 'rules': ['HIDDEN:pk._private', 'HIDDEN:pk.mod.Hid'],
@@ -72,6 +77,7 @@ TWO_ROOTS = {'alpha.py': '"""Alpha. See L{beta.B}."""\nclass A: pass\n', 'beta.p
              'gamma/tools.py': 'def helper(): "doc"\ndef m(): "doc"\ndef main(): "doc"\n',
              # a base from an external library, a private class in between, public classes below it
              'gamma/widgets.py': 'import extlib\nclass _Hook(extlib.Widget):\n    "doc"\nclass Button(_Hook):\n    "doc"\nclass Panel(extlib.Widget):\n    "doc"\nclass _Only(extlib.Other):\n    "doc"\n'
+                                 'class _Lone:\n    "private, its only subclass is hidden in some cases"\nclass HidSub(_Lone):\n    "doc"\n'
                                  'class Sealed:\n    "hidden by a rule in some cases"\n    def inner(self): "doc inner words"\n    class Deep:\n        def deepest(self): "doc"\n'}
 
 
@@ -80,6 +86,10 @@ def check_site(case, which):
         from replay import kitchen
         files = kitchen.KITCHEN
         case = dict(case, **kitchen.OPTION_SETS[case['options']])
+    elif case.get('project') == 'many':
+        files = {'mm/__init__.py': '"""Many modules."""\n', 'mm/_p1.py': 'def f(): "doc"\n', 'mm/_p2.py': 'x = 1\n', 'mm/__version__.py': 'v = "1"\n',
+                 }
+        files.update({f'mm/m{i:02d}.py': f'"""Module {i}."""\nclass C{i}:\n    "doc"\n' for i in range(52)})
     else:
         files = TWO_ROOTS if case.get('project') == 'two_roots' else site.PROJECT_B
     privacy = case['rules'] if 'rules' in case else site.PRIVACY_SETS[case['privacy']]
@@ -128,6 +138,13 @@ def check_site(case, which):
                 if not hit:
                     fails.append({'observed': f'{ppage}: no member table lists {n} ({want_})', 'required': 'documented under its parent (a row of the member tables)',
                                   'class': 'unlisted-member:' + ppage})
+        if which in ('C11', 'both'):
+            # '<root>.html' is a link to index.html exactly when the project has a single root (that is where its page is written)
+            one_root = len(system.rootobjects) == 1
+            for name_, target_ in idx.get('symlinks', {}).items():
+                if not one_root or name_ != system.rootobjects[0].name + '.html' or target_ != 'index.html':
+                    fails.append({'observed': f'{name_} is a link to {target_} in a project with the roots {[r.name for r in system.rootobjects]}', 'required': 'two different pages never share a file',
+                                  'class': 'unexpected-symlink'})
         if which in ('C11', 'both'):
             for page, info in idx['pages'].items():
                 for href in info['links']:
@@ -237,6 +254,42 @@ def check_site(case, which):
                         if _vis(o) and urllib.parse.unquote(o.url) == full and not _priv(o):
                             fails.append({'observed': f'classIndex.html: public {n} is listed inside a node marked private ({e.get("first_text") or e.get("label")!r})',
                                           'required': 'only private objects carry (or sit under) the private marker', 'class': 'classindex-folded'})
+            # the class hierarchy and the module index: the node of a private class / module whose displayed descendants are all private
+            # carries the marker; the node of a module carries it exactly when the module is private
+            by_url = {}
+            for n, o in objs.items():
+                if _vis(o):
+                    by_url.setdefault(urllib.parse.unquote(o.url), o)
+
+            def _objs_of(page_, hrefs_):
+                out_ = []
+                for h_ in hrefs_:
+                    r_ = site.resolve(page_, h_)
+                    if r_ is not None and r_[0] + ('#' + r_[1] if r_[1] else '') in by_url:
+                        out_.append(by_url[r_[0] + ('#' + r_[1] if r_[1] else '')])
+                return out_
+            for e in idx['pages'].get('classIndex.html', {}).get('entries', []):
+                if e['tag'] != 'li' or not e.get('hrefs'):
+                    continue
+                shown = _objs_of('classIndex.html', e['hrefs'])
+                if shown and all(_priv(x) for x in shown) and 'private' not in e['class'].split():
+                    fails.append({'observed': f'classIndex.html: the node of private {shown[0].fullName()} (with {len(shown) - 1} private descendants shown) has class {e["class"]!r}',
+                                  'required': 'carries the private marker', 'class': 'classindex-unmarked'})
+            for e in idx['pages'].get('moduleIndex.html', {}).get('entries', []):
+                if e['tag'] != 'li' or not e.get('href'):
+                    continue
+                first = _objs_of('moduleIndex.html', [e['href']])
+                if first and ('private' in e['class'].split()) != _priv(first[0]):
+                    fails.append({'observed': f'moduleIndex.html: the entry of {first[0].fullName()} (private: {_priv(first[0])}) has class {e["class"]!r}',
+                                  'required': 'marked private exactly when the module is private', 'class': 'moduleindex-marking'})
+            # ... also in the compact form of the module index (a package with more than 50 modules): one <span> per module
+            mi = os.path.join(d, 'out', 'moduleIndex.html')
+            if os.path.exists(mi):
+                for m_ in re.finditer(r'<span(?: class="([^"]*)")?><code><a href="([^"]+)"', open(mi, encoding='utf-8').read()):
+                    first = _objs_of('moduleIndex.html', [m_.group(2)])
+                    if first and ('private' in (m_.group(1) or '').split()) != _priv(first[0]):
+                        fails.append({'observed': f'moduleIndex.html (compact list): the entry of {first[0].fullName()} (private: {_priv(first[0])}) has class {m_.group(1)!r}',
+                                      'required': 'marked private exactly when the module is private', 'class': 'moduleindex-marking'})
             # the search document of a private object says so (the search page leaves private results out unless asked)
             for n, o in objs.items():
                 if _vis(o) and n in idx['search_privacy'] and (idx['search_privacy'][n] == 'PRIVATE') != (o.privacyClass is model_privacy_private()):
